@@ -3,6 +3,7 @@ package model
 import (
 	"encoding/json"
 	"fmt"
+	"regexp"
 	"strings"
 	"sync"
 	"time"
@@ -117,8 +118,24 @@ func Time(t time.Time) *time.Time {
 	return &t
 }
 
+// paramNamePrefix is the optional NAME= in front of a parameter value (the
+// same name pattern the parameter parser uses).
+var paramNamePrefix = regexp.MustCompile(`^[^\s=]+=`)
+
+// Params joins the parameters into one string that is parsed back to the
+// same list: a value that is empty or contains white space or a double quote
+// is written as "…" with \" for a double quote inside, as the parser reads it.
 func Params(params []string) string {
-	return strings.Join(params, " ")
+	quoted := make([]string, 0, len(params))
+	for _, p := range params {
+		name := paramNamePrefix.FindString(p)
+		value := p[len(name):]
+		if value == "" || strings.ContainsAny(value, " \t\n\f\r\"") {
+			value = `"` + strings.ReplaceAll(value, `"`, `\"`) + `"`
+		}
+		quoted = append(quoted, name+value)
+	}
+	return strings.Join(quoted, " ")
 }
 
 type PID int
